@@ -14,15 +14,26 @@ use std::collections::HashMap;
 /// BeltCtrCore is not Clone; everything else is
 trait MaybeClone: Sized {
     fn try_clone(&self) -> Option<Self>;
+    fn try_clone_from(&mut self, _src: &Self) -> bool {
+        false
+    }
 }
 impl<C: BlockCipherEncrypt + Clone, F: ctr::CtrFlavor<C::BlockSize>> MaybeClone for ctr::CtrCore<C, F> {
     fn try_clone(&self) -> Option<Self> {
         Some(self.clone())
     }
+    fn try_clone_from(&mut self, src: &Self) -> bool {
+        self.clone_from(src);
+        true
+    }
 }
 impl<C: BlockCipherEncrypt + Clone> MaybeClone for ofb::OfbCore<C> {
     fn try_clone(&self) -> Option<Self> {
         Some(self.clone())
+    }
+    fn try_clone_from(&mut self, src: &Self) -> bool {
+        self.clone_from(src);
+        true
     }
 }
 impl<C: BlockCipherEncrypt + BlockSizeUser<BlockSize = U16>> MaybeClone for belt_ctr::BeltCtrCore<C> {
@@ -38,15 +49,26 @@ where
 }
 trait MaybeCloneW: Sized {
     fn try_clone_w(&self) -> Option<Self>;
+    fn try_clone_from_w(&mut self, _src: &Self) -> bool {
+        false
+    }
 }
 impl<C: BlockCipherEncrypt + Clone, F: ctr::CtrFlavor<C::BlockSize>> MaybeCloneW for StreamCipherCoreWrapper<ctr::CtrCore<C, F>> {
     fn try_clone_w(&self) -> Option<Self> {
         Some(self.clone())
     }
+    fn try_clone_from_w(&mut self, src: &Self) -> bool {
+        self.clone_from(src);
+        true
+    }
 }
 impl<C: BlockCipherEncrypt + Clone> MaybeCloneW for StreamCipherCoreWrapper<ofb::OfbCore<C>> {
     fn try_clone_w(&self) -> Option<Self> {
         Some(self.clone())
+    }
+    fn try_clone_from_w(&mut self, src: &Self) -> bool {
+        self.clone_from(src);
+        true
     }
 }
 impl<C: BlockCipherEncrypt + BlockSizeUser<BlockSize = U16>> MaybeCloneW for StreamCipherCoreWrapper<belt_ctr::BeltCtrCore<C>> {
@@ -65,6 +87,8 @@ trait CoreObj {
     fn ivstate(&self) -> Res;
     fn wrap(self: Box<Self>) -> Box<dyn WrapObj>;
     fn clone_box(&self) -> Option<Box<dyn CoreObj>>;
+    fn as_any(&self) -> &dyn std::any::Any;
+    fn clone_from_dyn(&mut self, src: &dyn std::any::Any) -> Res;
     fn debug(&self) -> String;
     fn algname(&self) -> String;
     fn dropprobe(self: Box<Self>, secrets: &[Vec<u8>]) -> Res;
@@ -76,6 +100,8 @@ trait WrapObj {
     fn ivstate(&self) -> Res;
     fn core(&self) -> Option<Box<dyn CoreObj>>;
     fn clone_box(&self) -> Option<Box<dyn WrapObj>>;
+    fn as_any(&self) -> &dyn std::any::Any;
+    fn clone_from_dyn(&mut self, src: &dyn std::any::Any) -> Res;
     fn debug(&self) -> String;
     fn dropprobe(self: Box<Self>, secrets: &[Vec<u8>]) -> Res;
 }
@@ -259,6 +285,15 @@ where
     fn clone_box(&self) -> Option<Box<dyn CoreObj>> {
         self.0.try_clone().map(|c| Box::new(SeekCore(c)) as Box<dyn CoreObj>)
     }
+    fn as_any(&self) -> &dyn std::any::Any {
+        &self.0
+    }
+    fn clone_from_dyn(&mut self, src: &dyn std::any::Any) -> Res {
+        match src.downcast_ref::<T>() {
+            Some(s) => if self.0.try_clone_from(s) { Res::Ok } else { Res::Unsupported },
+            None => Res::Unsupported,
+        }
+    }
     fn debug(&self) -> String {
         format!("{:?}", self.0)
     }
@@ -292,6 +327,15 @@ where
     }
     fn clone_box(&self) -> Option<Box<dyn WrapObj>> {
         wrap_try_clone(&self.0).map(|w| Box::new(SeekWrap(w)) as Box<dyn WrapObj>)
+    }
+    fn as_any(&self) -> &dyn std::any::Any {
+        &self.0
+    }
+    fn clone_from_dyn(&mut self, src: &dyn std::any::Any) -> Res {
+        match src.downcast_ref::<StreamCipherCoreWrapper<T>>() {
+            Some(s) => if self.0.try_clone_from_w(s) { Res::Ok } else { Res::Unsupported },
+            None => Res::Unsupported,
+        }
     }
     fn debug(&self) -> String {
         format!("{:?}", self.0)
@@ -337,6 +381,15 @@ where
     fn clone_box(&self) -> Option<Box<dyn CoreObj>> {
         self.0.try_clone().map(|c| Box::new(PlainCore(c)) as Box<dyn CoreObj>)
     }
+    fn as_any(&self) -> &dyn std::any::Any {
+        &self.0
+    }
+    fn clone_from_dyn(&mut self, src: &dyn std::any::Any) -> Res {
+        match src.downcast_ref::<T>() {
+            Some(s) => if self.0.try_clone_from(s) { Res::Ok } else { Res::Unsupported },
+            None => Res::Unsupported,
+        }
+    }
     fn debug(&self) -> String {
         format!("{:?}", self.0)
     }
@@ -369,6 +422,15 @@ where
     }
     fn clone_box(&self) -> Option<Box<dyn WrapObj>> {
         wrap_try_clone(&self.0).map(|w| Box::new(PlainWrap(w)) as Box<dyn WrapObj>)
+    }
+    fn as_any(&self) -> &dyn std::any::Any {
+        &self.0
+    }
+    fn clone_from_dyn(&mut self, src: &dyn std::any::Any) -> Res {
+        match src.downcast_ref::<StreamCipherCoreWrapper<T>>() {
+            Some(s) => if self.0.try_clone_from_w(s) { Res::Ok } else { Res::Unsupported },
+            None => Res::Unsupported,
+        }
     }
     fn debug(&self) -> String {
         format!("{:?}", self.0)
@@ -547,6 +609,16 @@ fn step(objs: &mut HashMap<String, Obj>, op: &[String], rs: &[Res], fac: Factory
         "drop" => {
             objs.remove(&op[1]);
             Res::Ok
+        }
+        "clonefrom" => {
+            let Some(src) = objs.remove(&op[2]) else { return Res::Unsupported };
+            let r = match (objs.get_mut(&op[1]), &src) {
+                (Some(Obj::Core(d)), Obj::Core(s)) => d.clone_from_dyn(s.as_any()),
+                (Some(Obj::Wrap(d)), Obj::Wrap(s)) => d.clone_from_dyn(s.as_any()),
+                _ => Res::Unsupported,
+            };
+            objs.insert(op[2].clone(), src);
+            r
         }
         "wrap" => {
             // from_core consumes the core object
